@@ -322,6 +322,7 @@ def concretise(ex, A, mode):
     env.vars.update(self=selfo, tokens=tokens, lookahead=la, lookaheadstack=lastack, actions=Table('actions'), goto=Table('goto'),
                     prod=Table('prod'), defaulted_states=Table('defaulted'), pslice=pslice, errorcount=A.errorcount,
                     statestack=statestack, symstack=symstack, track_positions=True, errtoken=None)
+    ex.self_class = Y.Parser          # helper methods split off the driver loop resolve on the real class
     for name_, attr_ in ALIASES.items():
         if name_ not in env.vars and attr_ in selfo.fields:
             env.vars[name_] = selfo.fields[attr_]
